@@ -35,7 +35,7 @@ ASSUMPTIONS = ['float tolerance rtol 1e-5 (1e-4 for float32 waveforms)']
 def _case(draw):
     spec = draw(D.dataset_spec(dense=True, raw=False, naming='ks', amplitudes=True,
                                int_templates=False, full_feature_rows=True, max_nc=12,
-                               probe_labels=True))
+                               probe_labels=True, scales=[1.0, 1.0, 1e-9, 1e-6, 300.0]))
     return {'spec': spec, 'factor': draw(st.sampled_from([1, 1.0, 2.5, 1e-6]))}
 
 
@@ -221,4 +221,6 @@ def classify(case, info):
         labels.append('depth-denominator-zero')
     if s['wm']:
         labels.append('whitened')
+    if s['templates'].get('scale', 1.0) != 1.0:
+        labels.append('waveform-units:%g' % s['templates']['scale'])
     return labels, nt
